@@ -94,6 +94,7 @@ def oracle(case, rec):
         except Exception:
             pass
         rec.cls('after an earlier call with other options')
+    pristine = np.array(xin, copy=True)
     given = gens.arg(xin)
     try:
         imf = emd.sift.sift(given, imf_opts=dict(opts), envelope_opts=dict(eo), extrema_opts=copy.deepcopy(xo), **kw)
@@ -103,6 +104,7 @@ def oracle(case, rec):
     except Exception as e:
         raise Violation('C01/sift/raises/%s/%s' % (type(e).__name__, opts['stop_method']), repr(e))
     imf = np.asarray(imf)
+    returned = imf
     if isinstance(given, np.ndarray) and given.flags.writeable and imf.size:
         # the caller goes on using its buffer (next record, detrending in place): the decomposition it keeps is of the signal
         # it passed, not of whatever the buffer holds later
@@ -112,6 +114,20 @@ def oracle(case, rec):
             raise Violation('C01/sift/result-shares-memory-with-the-input-array',
                             'the returned components changed when the caller overwrote its own input array')
         imf = keep
+    if case.get('pre') and x.size <= 200 and isinstance(given, np.ndarray):
+        # the caller normalises the components it was given in place, then decomposes the same record again
+        held = returned
+        keep2 = np.array(imf)
+        if held.flags.writeable:
+            held *= 3.0
+            held += 1.0
+        try:
+            again = np.asarray(emd.sift.sift(pristine.copy(), imf_opts=dict(opts), envelope_opts=dict(eo), extrema_opts=copy.deepcopy(xo), **kw))
+        except Exception as e:
+            raise Violation('C01/sift/repeat-raises/' + type(e).__name__, repr(e))
+        if again.shape != keep2.shape or not np.array_equal(again, keep2):
+            raise Violation('C01/sift/repeated-call-differs-after-the-caller-edited-the-earlier-result', '')
+        imf = keep2
     if imf.ndim != 2 or imf.shape[0] != x.size or imf.shape[1] < 1:
         raise Violation('C01/sift/shape', repr(imf.shape))
     if not np.all(np.isfinite(imf)):
